@@ -200,6 +200,9 @@ class C19(PropBase):
             if r < 0.6 or not slotted_known:
                 steps.append({"op": "slot", "cls": c["n"], "dict": rng.random() < 0.3, "weakref": rng.random() < 0.5,
                               "rebase": rng.random() < 0.5})
+                if rng.random() < 0.4:
+                    # `slots = slotted(dict=.., weakref=..)` made once and applied to class after class
+                    steps[-1]["shared_deco"] = True
                 slotted_known.append(c["n"])
             else:
                 pick = rng.choice(slotted_known)
@@ -223,6 +226,7 @@ class C19(PropBase):
     def pre_run(self, sess):
         sess.slotted = {}  # name -> (slotted class, flags)
         sess.decolog = []
+        sess.decos = {}
 
     def exec_op(self, sess, i, step):
         from typelib.py import classes as tlc
@@ -238,7 +242,15 @@ class C19(PropBase):
                 bname = twin.__bases__[0].__name__
                 if bname in sess.slotted:
                     target = _rebuild_on(twin, sess.slotted[bname][0])
-            out = sess.guarded(sess.call, step, tlc.slotted, target, dict=step["dict"], weakref=step["weakref"])
+            if step.get("shared_deco"):
+                dk = (step["dict"], step["weakref"])
+                if dk not in sess.decos:
+                    sess.decos[dk] = tlc.slotted(dict=step["dict"], weakref=step["weakref"])
+                else:
+                    sess.probes["decorator_object_reused"] += 1
+                out = sess.guarded(sess.call, step, sess.decos[dk], target)
+            else:
+                out = sess.guarded(sess.call, step, tlc.slotted, target, dict=step["dict"], weakref=step["weakref"])
             sess.decolog.append(("slot", step["cls"], out.ok))
             if out.ok:
                 sess.slotted[step["cls"]] = (out.value, dict(dict=step["dict"], weakref=step["weakref"]), target)
